@@ -362,7 +362,27 @@ func Callee(info *types.Info, call *ast.CallExpr) types.Object {
 	fun := ast.Unparen(call.Fun)
 	switch f := fun.(type) {
 	case *ast.Ident:
-		return info.Uses[f]
+		o := info.Uses[f]
+		if v, isVar := o.(*types.Var); isVar && !v.IsField() {
+			// a function or method value bound once to a local: `next := l.NextBinEntry; next()`
+			if d := pat.DefOf(info, f); d != nil {
+				switch x := ast.Unparen(d).(type) {
+				case *ast.Ident:
+					if fn, ok := info.Uses[x].(*types.Func); ok {
+						return fn
+					}
+				case *ast.SelectorExpr:
+					if sel, ok := info.Selections[x]; ok {
+						if fn, ok := sel.Obj().(*types.Func); ok && sel.Kind() == types.MethodVal {
+							return fn
+						}
+					} else if fn, ok := info.Uses[x.Sel].(*types.Func); ok {
+						return fn
+					}
+				}
+			}
+		}
+		return o
 	case *ast.SelectorExpr:
 		if sel, ok := info.Selections[f]; ok {
 			return sel.Obj()
@@ -407,4 +427,28 @@ func IsFunc(fn *types.Func, pkgPath, recv, name string) bool {
 		return n.Obj().Name() == recv
 	}
 	return false
+}
+
+// FuncsOf lists the functions and methods declared with a body in the
+// non-test files of pk, in source order.
+func (p *Program) FuncsOf(pk *packages.Package) []*Fn {
+	var out []*Fn
+	if pk == nil || pk.TypesInfo == nil {
+		return nil
+	}
+	for _, f := range pk.Syntax {
+		if IsTestFile(p.Fset, f) {
+			continue
+		}
+		for _, d := range f.Decls {
+			fd, ok := d.(*ast.FuncDecl)
+			if !ok || fd.Body == nil {
+				continue
+			}
+			if fo, ok := pk.TypesInfo.Defs[fd.Name].(*types.Func); ok {
+				out = append(out, &Fn{Obj: fo, Decl: fd, Pkg: pk})
+			}
+		}
+	}
+	return out
 }
